@@ -52,6 +52,8 @@ var (
 	BIG   = Config{Name: "BIG"}
 	ROLL  = Config{Name: "ROLL", MaxSeg: refmodel.HeaderSize + 3*RecPut, MinSeg: 1, MinFrag: 1e-9}
 	ROLL1 = Config{Name: "ROLL1", MaxSeg: refmodel.HeaderSize + RecPut, MinSeg: 1, MinFrag: 1e-9}
+	// ROLLM: like ROLL, but segments smaller than header+60 bytes are not compaction candidates by themselves
+	ROLLM = Config{Name: "ROLLM", MaxSeg: refmodel.HeaderSize + 3*RecPut, MinSeg: refmodel.HeaderSize + 60, MinFrag: 1e-9}
 )
 
 // ConfigByName returns a configuration by name.
@@ -66,6 +68,8 @@ func ConfigByName(n string) Config {
 		c = ROLL
 	case "ROLL1":
 		c = ROLL1
+	case "ROLLM":
+		c = ROLLM
 	default:
 		panic("unknown config " + n)
 	}
